@@ -107,8 +107,14 @@ type c18Conn struct {
 func (c *c18Conn) Read(p []byte) (int, error) {
 	atomic.AddInt64(&c.started, 1)
 	n, err := c.Conn.Read(p)
-	atomic.AddInt64(&c.bytes, int64(n))
+	// `finished` before `bytes`: quiescent() loads bytes first, so "all bytes read" implies that the
+	// Read which delivered the last of them is already counted as finished, and started == finished+1
+	// can then only mean that the loop has come round to the NEXT Read (after the header hooks of
+	// everything sent so far). With the opposite order there was a window (bytes added, finished not
+	// yet) in which quiescent() was true while the frame had not even been handed to the read loop:
+	// false alarm c18:rejected-push-handled / c18:mismatch:c18qps on a loaded machine (vp check 7).
 	atomic.AddInt64(&c.finished, 1)
+	atomic.AddInt64(&c.bytes, int64(n))
 	return n, err
 }
 
